@@ -138,6 +138,7 @@ impl Core {
 
     fn begin(&mut self) -> bool {
         parking_lot::verif_rt::set_oracle_mode(false);
+        crate::watchdog::new_execution();
         if self.done {
             return false;
         }
@@ -181,6 +182,7 @@ impl Core {
 
     fn decide(&mut self, runnable: &[&Task], current: Option<TaskId>, is_yielding: bool) -> Option<TaskId> {
         let point = parking_lot::verif_rt::take_last_point();
+        crate::watchdog::beat();
         self.steps += 1;
         let mut ids: Vec<usize> = runnable.iter().map(|t| usize::from(t.id())).collect();
         ids.sort_unstable();
